@@ -3,6 +3,7 @@ package main
 import (
 	"fmt"
 	"go/types"
+	"os"
 	"runtime/debug"
 	"strings"
 )
@@ -115,6 +116,7 @@ func init() {
 			}
 			return BV(64, uint64(n))
 		},
+		"harness/vrt.Exit": func(fr *frame, a []value) value { fr.m.exitAll(); return nil },
 		"harness/vrt.Die": func(fr *frame, a []value) value { panic(targetPanic{goExit{}}) },
 		"harness/vrt.IsMain": func(fr *frame, a []value) value { return Bool(fr.m.cur.isMain) },
 		"harness/vrt.Go": func(fr *frame, a []value) value {
@@ -160,6 +162,23 @@ func init() {
 		"harness/vrt.Concrete": func(fr *frame, a []value) value {
 			return BV(64, fr.m.concretize("vrt.Concrete:"+a[0].(string), a[1].(*Term), 1<<12))
 		},
+		"harness/vrt.DebugErr": func(fr *frame, a []value) value {
+			it := a[1].(iface)
+			desc := "<nil>"
+			if it.t != nil {
+				desc = fmt.Sprintf("%v", it.t)
+				if oe, ok := it.v.(*opaqueErr); ok {
+					desc = "opaque: " + oe.msg
+					for _, w := range oe.wrapped {
+						if we, ok := w.(iface).v.(*opaqueErr); ok {
+							desc += " <- " + we.msg
+						}
+					}
+				}
+			}
+			fmt.Fprintln(os.Stderr, "DEBUG", a[0].(string), desc)
+			return nil
+		},
 		"harness/vrt.Event": func(fr *frame, a []value) value {
 			fr.m.fsEvents = append(fr.m.fsEvents, a[0].(string))
 			return nil
@@ -195,7 +214,26 @@ func init() {
 		"fmt.Sprint": func(fr *frame, a []value) value {
 			return fr.m.sprintf(strings.Repeat("%v", len(a[0].([]value))), a[0].([]value))
 		},
-		"fmt.Sscanf": func(fr *frame, a []value) value { return fr.m.sscanf(a[0].(string), a[1].(string), a[2].([]value)) },
+		"fmt.Sscanf": func(fr *frame, a []value) value {
+			if ss, ok := a[0].(symStr); ok {
+				if ss.format != a[1].(string) {
+					fr.m.incon = append(fr.m.incon, "Sscanf of a symbolic string with a different format")
+					fr.m.abort("Sscanf symbolic format mismatch")
+				}
+				for i, p := range a[2].([]value) {
+					*(p.(iface).v.(*value)) = ss.args[i]
+				}
+				return tuple{BV(64, uint64(len(ss.args))), iface{}}
+			}
+			return fr.m.sscanf(a[0].(string), a[1].(string), a[2].([]value))
+		},
+		"strings.HasSuffix": func(fr *frame, a []value) value {
+			if ss, ok := a[0].(symStr); ok {
+				lit := ss.format[strings.LastIndex(ss.format, "%"):]
+				return Bool(strings.HasSuffix(lit, a[1].(string)) && !strings.Contains(a[1].(string), "%"))
+			}
+			return Bool(strings.HasSuffix(a[0].(string), a[1].(string)))
+		},
 		"errors.Is": func(fr *frame, a []value) value {
 			return fr.m.errorsIs(a[0].(iface), a[1].(iface))
 		},
@@ -238,6 +276,26 @@ func init() {
 }
 
 func (m *Machine) sprintf(format string, args []value) value {
+	// symbolic integer operands only: a symbolic string
+	{
+		var ts []*Term
+		anySym := false
+		for _, x := range args {
+			it, _ := x.(iface)
+			t, ok := it.v.(*Term)
+			if !ok || t.W == 0 {
+				ts = nil
+				break
+			}
+			if !t.IsConst() {
+				anySym = true
+			}
+			ts = append(ts, t)
+		}
+		if anySym && len(ts) == len(args) && len(verbRe.FindAllString(format, -1)) == len(args) {
+			return symStr{format: format, args: ts}
+		}
+	}
 	var native []interface{}
 	for _, x := range args {
 		it, _ := x.(iface)
